@@ -14,6 +14,7 @@ import (
 	"strings"
 
 	"git.torproject.org/pluggable-transports/snowflake.git/v2/common/util"
+	"git.torproject.org/pluggable-transports/snowflake.git/v2/zz_verif/sdpstrip/sdplines"
 	"git.torproject.org/pluggable-transports/snowflake.git/v2/zz_verif/wire"
 	"github.com/pion/ice/v2"
 	"github.com/pion/sdp/v3"
@@ -178,6 +179,30 @@ func main() {
 				return "!badcase"
 			}
 			return parsePhase(text)
+		case "lparse": // phase 1 of the line-level ops: pion's view of the text, line by line
+			text, err := wire.Payload(a[1])
+			if err != nil {
+				return "!badcase"
+			}
+			v := sdplines.Structure(text)
+			return v.Tok + " " + b01(v.Stable)
+		case "lines": // the whole output of the function under test, line by line
+			text, err := wire.Payload(a[2])
+			if err != nil {
+				return "!badcase"
+			}
+			v := sdplines.Structure(text)
+			if v.Tok != a[1] {
+				return "!structure-mismatch " + v.Tok
+			}
+			out := util.StripLocalAddresses(string(text))
+			if v.Tok == "U" {
+				if out == string(text) {
+					return "unchanged"
+				}
+				return "changed-unparsable-input"
+			}
+			return v.LineIDs(out)
 		case "strip":
 			text, err := wire.Payload(a[2])
 			if err != nil {
